@@ -342,8 +342,9 @@ func init() {
 					want = "urn:uuid:" + plain
 				}
 				c.Check("verb " + format + plain)
-				if got := fmt.Sprintf(format, id); got != want {
-					c.Fail("C05.verbs", "uu.paths "+fmt.Sprint(hi, " ", lo), "Sprintf(%q, id) = %q, want %q", format, got, want)
+				documented := verb == 'u' || verb == 's' || verb == 'v'
+				if got := fmt.Sprintf(format, id); documented && got != want || !documented && got != plain && got != "urn:uuid:"+plain {
+					c.Fail("C05.verbs", "uu.paths "+fmt.Sprint(hi, " ", lo), "Sprintf(%q, id) = %q, want %q (undocumented verbs: the plain or the URN text)", format, got, want)
 				}
 			})
 		}
@@ -363,8 +364,9 @@ func init() {
 					want = "v" + plain
 				}
 				c.Check("verb " + format + plain)
-				if got := fmt.Sprintf(format, v); got != want {
-					c.Fail("C03.verbs", "", "Sprintf(%q, %s) = %q, want %q", format, plain, got, want)
+				documented := verb == 't' || verb == 's' || verb == 'v'
+				if got := fmt.Sprintf(format, v); documented && got != want || !documented && got != plain && got != "v"+plain {
+					c.Fail("C03.verbs", "", "Sprintf(%q, %s) = %q, want %q (undocumented verbs: the plain or the tag text)", format, plain, got, want)
 				}
 			})
 		}
@@ -448,9 +450,19 @@ func init() {
 			n, _ := strconv.ParseUint(dec, 10, 64)
 			t1, t2, t3 := dec+unit, "  "+szGroup3(dec, "_")+" "+unit+" ", szGroup3(want, "\u00a0")
 			jobs = append(jobs,
-				concJob{fmt.Sprintf("DefaultParser(%q)", t1), want, func() string { p, err := size.DefaultParser(t1, 0); return fmt.Sprintf("%d", uint64(p)) + errSuffix(err) }},
-				concJob{fmt.Sprintf("DefaultParser([]byte %q)", t2), want, func() string { p, err := size.DefaultParser([]byte(t2), 0); return fmt.Sprintf("%d", uint64(p)) + errSuffix(err) }},
-				concJob{fmt.Sprintf("UnmarshalText(%q)", t3), want, func() string { var p size.Size; err := p.UnmarshalText([]byte(t3)); return fmt.Sprintf("%d", uint64(p)) + errSuffix(err) }},
+				concJob{fmt.Sprintf("DefaultParser(%q)", t1), want, func() string {
+					p, err := size.DefaultParser(t1, 0)
+					return fmt.Sprintf("%d", uint64(p)) + errSuffix(err)
+				}},
+				concJob{fmt.Sprintf("DefaultParser([]byte %q)", t2), want, func() string {
+					p, err := size.DefaultParser([]byte(t2), 0)
+					return fmt.Sprintf("%d", uint64(p)) + errSuffix(err)
+				}},
+				concJob{fmt.Sprintf("UnmarshalText(%q)", t3), want, func() string {
+					var p size.Size
+					err := p.UnmarshalText([]byte(t3))
+					return fmt.Sprintf("%d", uint64(p)) + errSuffix(err)
+				}},
 				concJob{fmt.Sprintf("New(%d, %q)", n, unit), want, func() string { p, err := size.New(n, unit); return fmt.Sprintf("%d", uint64(p)) + errSuffix(err) }},
 				concJob{fmt.Sprintf("Bytes[uint64](%d)", v), want + " true", func() string { b, ok := size.Bytes[uint64](s); return fmt.Sprintf("%d %v", b, ok) }})
 		}
@@ -472,7 +484,11 @@ func init() {
 					return fmt.Sprintf("%d", uint64(p)) + errSuffix(err)
 				}})
 			}
-			jobs = append(jobs, concJob{fmt.Sprintf("UnmarshalJSON(%q)", d1), want, func() string { var p size.Size; err := p.UnmarshalJSON([]byte(d1)); return fmt.Sprintf("%d", uint64(p)) + errSuffix(err) }})
+			jobs = append(jobs, concJob{fmt.Sprintf("UnmarshalJSON(%q)", d1), want, func() string {
+				var p size.Size
+				err := p.UnmarshalJSON([]byte(d1))
+				return fmt.Sprintf("%d", uint64(p)) + errSuffix(err)
+			}})
 		}
 		concRun(c, "C12.concurrent", jobs, 100)
 	})
